@@ -265,13 +265,32 @@ def pure_calls():
     return L
 
 
-def make_env(dtype, container, seed):
+SHAPES = ["generic", "zero_start_down", "zero_start_up", "plateaus", "leading_zeros", "negative_offset"]
+
+
+def make_env(dtype, container, seed, shape="generic"):
     import eqsig
     from eqsig import stockwell
     rng = np.random.default_rng(seed)
     n = 256
     x = np.sin(np.arange(n) / 3.0) * 2 + rng.standard_normal(n) + 0.3
     y = np.cos(np.arange(n) / 4.0) * 2 + rng.standard_normal(n)
+    if shape == "zero_start_down":       # starts exactly at 0, first movement downwards, no equal neighbours
+        x[0], x[1] = 0.0, -1.7
+        y[0], y[1] = 0.0, -0.9
+    elif shape == "zero_start_up":
+        x[0], x[1] = 0.0, 1.3
+        y[0], y[1] = 0.0, 0.4
+    elif shape == "plateaus":
+        x = np.repeat(x[: n // 4], 4)
+        y = np.repeat(y[: n // 2], 2)
+    elif shape == "leading_zeros":
+        x[:5] = 0.0
+        y[:3] = 0.0
+        x[-4:] = 0.0
+    elif shape == "negative_offset":
+        x = x - 4.0
+        y = -np.abs(y) - 0.5
     if dtype == "int64":
         x = np.round(x * 3).astype(np.int64)
         y = np.round(y * 3).astype(np.int64)
@@ -297,9 +316,12 @@ def pure_events(rep, tier, seed):
     calls = pure_calls()
     variants = [("float64", "ndarray"), ("int64", "ndarray"), ("float64", "list"), ("int64", "list")]
     nraised = 0
-    for dtype, container in variants:
+    combos = [(d, c, "generic") for d, c in variants] + [(d, "ndarray", sh) for sh in SHAPES[1:] for d in ("float64", "int64")]
+    for dtype, container, shape in combos:
         for name, argn, fn in calls:
-            env = make_env(dtype, container, seed + 5)
+            if shape != "generic" and not (set(argn) & {"v", "w", "asig", "asig2"}):
+                continue
+            env = make_env(dtype, container, seed + 5, shape)
             args = [env[a] for a in argn]
             pre = [digest(a) for a in args]
             raised = None
@@ -316,10 +338,47 @@ def pure_events(rep, tier, seed):
                     raised = type(ex).__name__
                     nraised += 1
             post = [digest(a) for a in args]
-            recs.append({"kind": "pure", "fn": name, "dtype": dtype, "container": container, "pre": pre, "post": post,
+            recs.append({"kind": "pure", "fn": name, "dtype": dtype, "container": container, "shape": shape, "pre": pre, "post": post,
                          "res1": res1, "res2": res2, "raised": raised is not None, "exc": raised or ""})
-    rep.extra["pure_calls"] = {"functions": len(calls), "variants": len(variants), "raised": nraised}
+    rep.extra["pure_calls"] = {"functions": len(calls), "variants": len(combos), "events": len(recs), "raised": nraised}
     return recs
+
+
+def grid_sessions(rep, tier):
+    """values/npts/time grid for many (length, dt) pairs: one session per dt and class, one construct_1 (or reset_1)
+    event per length (len(values) = npts and time = dt*[0..npts-1] must hold for every length, not a few)"""
+    import eqsig
+    out = []
+    nmax = 400 if tier == "quick" else 3000
+    for dt in (0.01, 0.005, 0.02, 0.1, 0.05, 0.004, 0.001, 0.5, 2.0, 0.013):
+        for kind in ("AccSignal", "Signal"):
+            c = Ctx(kind)
+            cls = c.cls
+            events = []
+            for n in range(1, nmax + 1):
+                a = np.linspace(-1.0, 1.0, n)
+                c.callers[0] = a
+                c.expected[0] = digest(a)
+                if n % 2:
+                    c.obj = cls(a, dt)
+                    op = "construct_1"
+                else:
+                    c.obj.reset_values(a)
+                    op = "reset_1"
+                e = c.pi()
+                # pi() compares with obj.dt * arange: make it independent of obj.dt
+                v = c.obj.values
+                try:
+                    t = np.asarray(c.obj.time)
+                    e["time_ok"] = bool(len(t) == n and np.allclose(t, dt * np.arange(n), rtol=1e-13, atol=0))
+                except Exception:
+                    e["time_ok"] = False
+                e["len_ok"] = bool(len(v) == n and c.obj.npts == n)
+                e["op"] = op
+                events.append(e)
+            out.append({"kind": "session", "cls": kind, "src": "grid dt=%s n=1..%d" % (dt, nmax), "events": events})
+            rep.evaluations += len(events)
+    return out
 
 
 # ------------------------------------------------------------------------------------------------
@@ -360,6 +419,7 @@ def run(tier, seed):
             recs.append({"kind": "session", "cls": kind, "src": "simulate", "events": ev})
             rep.evaluations += len(ev)
         rep.extra["simulate_%s" % kind] = {"behaviours": len(behs[:num]), "depth": depth}
+    recs += grid_sessions(rep, tier)
     recs += pure_events(rep, tier, seed)
     for i, rc in enumerate(recs):
         rc["tid"] = i + 1
@@ -384,7 +444,7 @@ def run(tier, seed):
         rep.traces += 1
         for c in verdicts[t][0]:
             if rc["kind"] == "pure":
-                rep.fail(c, rc["fn"], {k: rc[k] for k in ("fn", "dtype", "container", "pre", "post", "res1", "res2", "exc")})
+                rep.fail(c, rc["fn"], {k: rc[k] for k in ("fn", "dtype", "container", "shape", "pre", "post", "res1", "res2", "exc")})
             else:
                 rep.fail(c, "session:" + rc["src"], {"cls": rc["cls"], "ops": [e["op"] for e in rc["events"]][:40],
                                                       "last": rc["events"][-1] if rc["events"] else None})
